@@ -479,6 +479,48 @@ func c19Session(r *kit.Run, i int64, rng *rand.Rand, shape c19shape) {
 				}
 				h = e
 				kinds["merge"] = true
+			case x < 18:
+				// merge from a histogram with a wider range: what does not fit is
+				// reported as dropped and is not counted; values inside this
+				// histogram's range always fit
+				wide := hdrhist.New(shape.Min, shape.Max*16+1, shape.Sig)
+				probe := hdrhist.New(shape.Min, shape.Max, shape.Sig)
+				var fits []int64
+				var wantDropped int64
+				nv := 1 + rng.IntN(6)
+				var desc []int64
+				for k := 0; k < nv; k++ {
+					v := pick()
+					if rng.IntN(2) == 0 {
+						v = shape.Max + 1 + rng.Int64N(shape.Max*15)
+					}
+					desc = append(desc, v)
+					if err := wide.RecordValue(v); err != nil {
+						viol("RecordValue/in-range-rejected", fmt.Sprintf("RecordValue(%d) with range [%d,%d]: %v", v, shape.Min, shape.Max*16+1, err))
+						bad = true
+						return
+					}
+					if v <= shape.Max || probe.RecordValue(v) == nil {
+						fits = append(fits, v)
+					} else {
+						wantDropped++
+					}
+				}
+				log = append(log, fmt.Sprintf("h.Merge(New(min, 16*max+1) holding %v)", desc))
+				before := h.TotalCount()
+				dropped := h.Merge(wide)
+				if dropped != wantDropped {
+					viol("Merge/dropped", fmt.Sprintf("Merge from a wider histogram holding %v reported %d dropped; %d of the values do not fit the receiver [%d,%d]", desc, dropped, wantDropped, shape.Min, shape.Max))
+					bad = true
+					return
+				}
+				if got := h.TotalCount(); got != before+int64(len(fits)) {
+					viol("TotalCount/mismatch", fmt.Sprintf("TotalCount()=%d after merging %d values of which %d were dropped into a histogram that held %d", got, nv, dropped, before))
+					bad = true
+					return
+				}
+				vals = append(vals, fits...)
+				kinds["merge-wider"] = true
 			default:
 				log = append(log, "query")
 				if k, d := c19Queries(h, vals, shape, rng, false); k != "" {
